@@ -302,6 +302,11 @@ def run(tier):
     # the published contract is drop_fn(data, len, capacity) / reserve_fn(vec, additional): the Rust side must read them in that order
     from rules import c11
     c11.check_stored_fn_positions(ck, cl)
+    # ---- (2c) the published protocols: "next returns 0 for an item" (any other code ends the iteration, the slot is written only for an
+    # item and never read before), "an arc's clone is whatever its clone function returns"
+    from rules import c15, c10
+    c15.check_all(report.Only(ck, ("I-",)), tier)
+    c10.check_all(report.Only(ck, ("B-clone-through-stored-fn", "A-constructor-stores-both-fns")), tier)
 
     # ---- (3) cglue-bindgen hard-coded patterns ------------------------------------------------------------
     bf = facts.cfg_bindgen()
